@@ -1,4 +1,5 @@
 import Sudachi.Proofs.Cli
+import Sudachi.Proofs.PySession
 /-!
 # C19 — Python bindings and the CLI report exactly what the core library computes
 
@@ -6,9 +7,12 @@ Model: `Cli.run` (`sudachi-cli`: read-line loop, `strip_eol`, the analysis modes
 writers) with the library (sentence splitter, tokenizer, morpheme fields) as a parameter, and
 `Cli.pyRun` (Python `Tokenizer.tokenize(text, mode=…)`: override + scope-guard restore).
 What the library computes is C01–C16; that the real binary/extension prints exactly what the model
-says for the library's answers is the correspondence run of this check.  "No sequence of Python calls
-crashes the interpreter" is a runtime claim the model cannot express: it is exercised by the Python
-run of the check and labelled partial.
+says for the library's answers is the correspondence run of this check.  Python SESSIONS (lists sharing
+input cells, `out=` reuse, staleness, what reading a stale list gives) are `Model/PySession.lean` on C10's
+`Recycle.World`; see the last section.  "No sequence of Python calls crashes the interpreter" is proved over
+that model (no observation is `crash`, every list always has a cell); for the REAL interpreter it stays a
+runtime claim, exercised by the Python run of the check (every list and kept morpheme is read after every
+call) and labelled partial.
 -/
 namespace C19
 open Cli
@@ -375,5 +379,298 @@ example : PyGlue.split ⟨true, .other, none, true, 0, false⟩ = (.val "1", .fi
 example : PyGlue.getitem 3 (.int (-1)) = .val "2" ∧ PyGlue.getitem 3 (.int 3) = .exc "IndexError" ∧ PyGlue.getitem 0 (.int 0) = .exc "IndexError" := by decide
 /-- the split-made total `i32::MAX` against a negative first total: overflow -/
 example : PyGlue.internalCost [-246, 2147483647] = .exc "PanicException" ∧ PyGlue.internalCost [5, 9, 20] = .val "15" := by decide
+
+/-! ## Python SESSIONS: result lists sharing input cells (`Model/PySession.lean`, on C10's `Recycle.World`) -/
+section Session
+open Recycle PySession
+variable {E : Type}
+
+/-- the `out=` argument of a call and whether the call rewrites the CONTENT of the cell of `out` -/
+def outOf : Call E → Option Nat
+  | .tokenize _ out _ => out
+  | .split _ _ a => a.out
+  | .lookup _ out => out
+
+def rewritesCell : Call E → Bool
+  | .split _ _ _ => false
+  | _ => true
+
+/-- **(a) The result of `tokenize` does not depend on which list is passed as `out`** (a reused list, a list sharing
+its cell with others, a stale list, or none).  For every state of a session (`ListsOk`: an invariant, see
+`session_lists_always_have_a_cell`), text, per-call mode and two choices `out`, `out'`: both calls raise the same
+exception class, or both return their list and what every accessor reads from it — the nodes and the content of its
+cell — is THE SAME, namely the result path and input buffer of the tokenizer's analysis of `text` in the effective mode.
+That this analysis depends only on (text, mode, field request) and not on the session's history is
+`C10.observable_result_history_free`; the mode is restored by `C10.py_tokenize_restores_mode`. -/
+theorem tokenize_result_independent_of_out (v : ResetVariant) (P : Payload E) (w : World E) (hok : ListsOk w)
+    (mode : Option Recycle.Mode) (text : List E) (out out' : Option Nat)
+    (ho : ∀ j, out = some j → j < w.lists.length) (ho' : ∀ j, out' = some j → j < w.lists.length) :
+    let r := tokenize v P w mode out text
+    let r' := tokenize v P w mode out' text
+    (∃ e, r.2 = .exc e ∧ r'.2 = .exc e) ∨
+    (r.2 = .list (outIdx w out) ∧ r'.2 = .list (outIdx w out') ∧
+      view r.1 (outIdx w out) = view r'.1 (outIdx w out') ∧ (view r.1 (outIdx w out)).isSome = true) := by
+  intro r r'
+  obtain ⟨a1, a2, a3⟩ := tokenize_view v P w hok mode out text ho
+  obtain ⟨b1, b2, b3⟩ := tokenize_view v P w hok mode out' text ho'
+  by_cases hk : ((ovr v P mode w).tok.analyse v P text).2 = .ok
+  · cases hp : ((ovr v P mode w).tok.analyse v P text).1.topPath with
+    | none => exact Or.inl ⟨_, a2 hk hp, b2 hk hp⟩
+    | some path =>
+      obtain ⟨x1, x2, -⟩ := a1 hk path hp
+      obtain ⟨y1, y2, -⟩ := b1 hk path hp
+      exact Or.inr ⟨x1, y1, by rw [x2, y2], by rw [x2]; rfl⟩
+  · have ha := a3 hk
+    have hb := b3 hk
+    cases hh : ((ovr v P mode w).tok.analyse v P text).2 with
+    | ok => exact absurd hh hk
+    | err e => rw [hh] at ha hb; exact Or.inl ⟨"SudachiError", ha, hb⟩
+    | panic => rw [hh] at ha hb; exact Or.inl ⟨"PanicException", ha, hb⟩
+
+/-- **(b) Lists that do not share a cell with `out` are unaffected by a call** — `tokenize`, `split`, `lookup`, with or
+without `out=`, succeeding or raising.  Every list `k` other than the one the call writes reads after the call exactly
+what it read before (same nodes, same cell, same cell content) unless the call rewrites a cell content (`tokenize`,
+`lookup`) and `k` shares the cell of `out`.  In particular `split(out=o)` NEVER changes what any other list reads,
+sharing or not: it re-points `o` and touches no cell. -/
+theorem unshared_lists_unaffected (v : ResetVariant) (P : Payload E) (w : World E) (hok : ListsOk w) (c : Call E)
+    (k : Nat) (hk : k < w.lists.length) (hne : k ≠ outIdx w (outOf c))
+    (hns : rewritesCell c = true → ∀ o, outOf c = some o → shares w o k = false) :
+    cellOf (step v P w c).1 k = cellOf w k := by
+  have hps : ∀ (out : Option Nat), (∀ o, out = some o → shares w o k = false) →
+      ∀ L, w.lists[k]? = some L → ¬ (partOf w (outIdx w out) = some L.part ∧ out.isSome = true) := by
+    intro out hs L hL ⟨hp, hsome⟩
+    cases out with
+    | none => cases hsome
+    | some o =>
+      have := hs o rfl
+      simp only [shares, hL] at this
+      simp only [partOf, outIdx] at hp
+      cases hLo : w.lists[o]? with
+      | none => rw [hLo] at hp; cases hp
+      | some Lo =>
+        rw [hLo] at hp this
+        have : Lo.part = L.part := by simpa using hp
+        simp_all
+  cases c with
+  | tokenize mode out text =>
+    exact (pyTokenize_touch v P w mode out text).cellOf hok k hne hk (hps out (hns rfl))
+  | split i idx a =>
+    exact (split_touch P w i idx a).cellOf hok k hne hk (fun _ _ h => h)
+  | lookup q out =>
+    exact (lookup_touch' P w q out).cellOf hok k hne hk (hps out (hns rfl))
+
+/-- **Staleness, exactly**: after `tokenize(text, out=o)` returned, a list `k` that shares the cell of `o` keeps its
+nodes and its cell, and the cell now holds the NEW text — `k` reads the content `o` reads (it is stale when it has
+morphemes), and `o` still points to the same cell (the swap exchanges contents, not cells). -/
+theorem sharing_lists_read_the_new_text (v : ResetVariant) (P : Payload E) (w : World E) (hok : ListsOk w)
+    (mode : Option Recycle.Mode) (text : List E) (o k : Nat) (ho : o < w.lists.length) (hk : k < w.lists.length) (hne : k ≠ o)
+    (hsh : shares w o k = true) (hret : (tokenize v P w mode (some o) text).2 = .list o) :
+    let r := tokenize v P w mode (some o) text
+    r.1.lists[k]? = w.lists[k]? ∧ partOf r.1 o = partOf w o ∧
+    (cellOf r.1 k).map (·.2) = (cellOf r.1 o).map (·.2) := by
+  intro r
+  have ht := pyTokenize_touch v P w mode (some o) text
+  have hl : r.1.lists[k]? = w.lists[k]? := ht.2.2.1 k hne hk
+  obtain ⟨a1, a2, a3⟩ := tokenize_view v P w hok mode (some o) text (by intro j hj; cases hj; exact ho)
+  have hpo : partOf r.1 o = partOf w o := by
+    by_cases hq : ((ovr v P mode w).tok.analyse v P text).2 = .ok
+    · cases hp : ((ovr v P mode w).tok.analyse v P text).1.topPath with
+      | none => have := a2 hq hp; rw [this] at hret; cases hret
+      | some path => exact (a1 hq path hp).2.2 o rfl
+    · have := a3 hq
+      rw [this] at hret
+      cases hh : ((ovr v P mode w).tok.analyse v P text).2 with
+      | ok => exact absurd hh hq
+      | err e => rw [hh] at hret; cases hret
+      | panic => rw [hh] at hret; cases hret
+  refine ⟨hl, hpo, ?_⟩
+  have hsame : partOf r.1 k = partOf r.1 o := by
+    rw [hpo]
+    show r.1.lists[k]?.map (·.part) = _
+    rw [hl]
+    simp only [shares] at hsh
+    simp only [partOf]
+    rw [List.getElem?_eq_getElem ho, List.getElem?_eq_getElem hk] at hsh ⊢
+    have : w.lists[o].part = w.lists[k].part := by simpa using hsh
+    simp [this]
+  apply same_cell_same_text _ _ _ hsame
+  show (r.1.lists[k]?.map (·.part)).isSome = true
+  rw [hl, List.getElem?_eq_getElem hk]; rfl
+
+/-- **`split(out=o)` re-points `o` to the parent's cell exactly when it writes** (units, or the morpheme itself for
+`add_single`, whose default is True): then `o` holds the units and shares the parent's cell; when nothing is written `o`
+is only cleared and KEEPS its own cell.  (Valid mode, `o` another existing list, index in range, parent not stale.) -/
+theorem split_repoints_only_when_writing (P : Payload E) (w : World E) (i idx o : Nat) (a : SplitArgs)
+    (Li Lo : MList E) (p : Part E) (node : E)
+    (hm : a.modeOk = true) (hout : a.out = some o) (hoi : o ≠ i) (hu : a.unwinds = false)
+    (hLi : w.lists[i]? = some Li) (hLo : w.lists[o]? = some Lo) (hn : Li.nodes[idx]? = some node)
+    (hp : w.parts[Li.part]? = some p) :
+    let units := P.splitNodes a.mode p.subset p.input.view node
+    let r := split P w i idx a
+    r.2 = .list o ∧
+    (units ≠ [] → r.1.lists[o]? = some ⟨Li.part, units⟩) ∧
+    (units = [] → a.addSingle ≠ some false → r.1.lists[o]? = some ⟨Li.part, [node]⟩) ∧
+    (units = [] → a.addSingle = some false → r.1.lists[o]? = some ⟨Lo.part, []⟩) := by
+  intro units r
+  have ho : o < w.lists.length := by
+    rcases Nat.lt_or_ge o w.lists.length with h | h
+    · exact h
+    · rw [List.getElem?_eq_none h] at hLo; cases hLo
+  have hio : i ≠ o := fun h => hoi h.symm
+  -- the world after `out.clear()`
+  have hw1 : ((splitCell P w i a.out).step .fix P (.clear (outIdx w a.out))).1 =
+      { w with lists := w.lists.set o { Lo with nodes := [] } } := by
+    simp [hout, splitCell, outIdx, World.step, hLo]
+  have hr : r = dropNew w a.out (splitCore P { w with lists := w.lists.set o { Lo with nodes := [] } } i idx a o) := by
+    show split P w i idx a = _
+    unfold split
+    have h2 : ¬ (a.out = some i) := by rw [hout]; intro h; exact hoi (Option.some.inj h)
+    simp only [hm, Bool.not_true, Bool.false_eq_true, if_false, h2]
+    rw [hw1]; simp [hout, outIdx]
+  have hsi : ({ w with lists := w.lists.set o { Lo with nodes := [] } } : World E).splitInto P i idx a.mode o =
+      (if units.isEmpty then ({ w with lists := w.lists.set o { Lo with nodes := [] } } : World E)
+       else { w with lists := (w.lists.set o { Lo with nodes := [] }).set o ⟨Li.part, [] ++ units⟩ }, .ok) := by
+    unfold World.splitInto
+    simp only [hio, if_false]
+    have e1 : (w.lists.set o { Lo with nodes := [] })[i]? = some Li := by rw [List.getElem?_set_ne hoi, hLi]
+    have e2 : (w.lists.set o { Lo with nodes := [] })[o]? = some { Lo with nodes := [] } := List.getElem?_set_self ho
+    simp only [e1, e2, hn, hp]
+    split <;> rfl
+  rw [hr]
+  unfold splitCore
+  rw [hsi]
+  simp only [hu, Bool.false_eq_true, if_false]
+  by_cases hue : units = []
+  · have hemp : units.isEmpty = true := by rw [hue]; rfl
+    simp only [hemp, if_true]
+    have hnn : hasNodes ({ w with lists := w.lists.set o { Lo with nodes := [] } } : World E) o = false := by
+      simp [hasNodes, List.getElem?_set_self ho]
+    rw [hnn]
+    cases hadd : a.addSingle with
+    | some b =>
+      cases b with
+      | false =>
+        simp only [PyGlue.addSingleOf, Bool.false_and, Bool.false_eq_true, if_false, dropNew]
+        refine ⟨by first | rfl | trivial, fun h => absurd hue h, fun _ h => absurd rfl h, fun _ _ => ?_⟩
+        exact List.getElem?_set_self ho
+      | true =>
+        have hcs : copySlice ({ w with lists := w.lists.set o { Lo with nodes := [] } } : World E) i idx o =
+            ({ w with lists := (w.lists.set o { Lo with nodes := [] }).set o ⟨Li.part, [] ++ [node]⟩ }, .ok) := by
+          unfold copySlice
+          have e1 : (w.lists.set o { Lo with nodes := [] })[i]? = some Li := by rw [List.getElem?_set_ne hoi, hLi]
+          have e2 : (w.lists.set o { Lo with nodes := [] })[o]? = some { Lo with nodes := [] } := List.getElem?_set_self ho
+          simp only [e1, e2, hn]
+        simp only [PyGlue.addSingleOf, Bool.not_false, Bool.and_self, if_true, hcs, dropNew]
+        refine ⟨by first | rfl | trivial, fun h => absurd hue h, fun _ _ => ?_, fun _ h => by cases h⟩
+        show ((w.lists.set o _).set o _)[o]? = _
+        rw [List.getElem?_set_self (by rw [List.length_set]; exact ho)]; rfl
+    | none =>
+      have hcs : copySlice ({ w with lists := w.lists.set o { Lo with nodes := [] } } : World E) i idx o =
+          ({ w with lists := (w.lists.set o { Lo with nodes := [] }).set o ⟨Li.part, [] ++ [node]⟩ }, .ok) := by
+        unfold copySlice
+        have e1 : (w.lists.set o { Lo with nodes := [] })[i]? = some Li := by rw [List.getElem?_set_ne hoi, hLi]
+        have e2 : (w.lists.set o { Lo with nodes := [] })[o]? = some { Lo with nodes := [] } := List.getElem?_set_self ho
+        simp only [e1, e2, hn]
+      simp only [PyGlue.addSingleOf, Bool.not_false, Bool.and_self, if_true, hcs, dropNew]
+      refine ⟨by first | rfl | trivial, fun h => absurd hue h, fun _ _ => ?_, fun _ h => by cases h⟩
+      show ((w.lists.set o _).set o _)[o]? = _
+      rw [List.getElem?_set_self (by rw [List.length_set]; exact ho)]; rfl
+  · have hemp : units.isEmpty = false := by
+      cases hunits : units with
+      | nil => exact absurd hunits hue
+      | cons x xs => rfl
+    simp only [hemp, Bool.false_eq_true, if_false]
+    have hnn : hasNodes ({ w with lists := (w.lists.set o { Lo with nodes := [] }).set o ⟨Li.part, [] ++ units⟩ } : World E) o = true := by
+      simp only [hasNodes]
+      rw [List.getElem?_set_self (by rw [List.length_set]; exact ho)]
+      simp [hue]
+    rw [hnn]
+    simp only [Bool.not_true, Bool.and_false, Bool.false_eq_true, if_false, dropNew]
+    refine ⟨by first | rfl | trivial, fun _ => ?_, fun h => absurd h hue, fun h => absurd h hue⟩
+    show ((w.lists.set o _).set o _)[o]? = _
+    rw [List.getElem?_set_self (by rw [List.length_set]; exact ho)]; rfl
+
+/-- **Every list always has a cell** (the model's counterpart of "the `Rc` a list holds is never dangling"): after ANY
+session of `tokenize` / `split` / `lookup` calls — with any `out=` arguments, reused, shared or stale lists, calls that
+raise, lists dropped with an exception — started from a new tokenizer, every existing list points to an existing cell, so
+reading any list (`cellOf`) always finds nodes and a text to read them against. -/
+theorem session_lists_always_have_a_cell (v : ResetVariant) (m : Recycle.Mode) (calls : List (Payload E × Call E)) (k : Nat)
+    (hk : k < (run v (World.init m) calls).1.lists.length) :
+    ListsOk (run v (World.init m) calls).1 ∧ (cellOf (run v (World.init m) calls).1 k).isSome = true := by
+  have h := run_listsOk v calls (World.init m) (ListsOk.init m)
+  exact ⟨h, cellOf_isSome _ h k hk⟩
+
+end Session
+
+open PySession PyGlue in
+/-- **(c) Reading a stale list never crashes the model: it answers with data of the NEW text or an exception.**  For
+ANY index tables `t` (the content the list's cell holds NOW, whatever text that is) and ANY node (offsets made for another
+text, out of range, inside a character): `begin()`, `end()` and `raw_surface()` answer a value or `PanicException`, never
+`crash`; a surface that is returned is a contiguous slice of the cell's CURRENT `original` text that starts and ends on
+character boundaries of it; an offset that is returned is an entry of the current text's `orig_b2c` table (not the
+`usize::MAX` filler); and a kept `Morpheme` whose index is beyond the list's current length raises.  PARTIAL for the
+real extension as `py_never_crashes`: PyO3's panic-to-exception conversion is exercised (every list and every kept
+morpheme is read after every call of every session and compared with this model), not proved. -/
+theorem stale_read_never_crashes (t : Tabs) (n : NodeR) (nodes : List Nat) (ix : Nat) :
+    (∀ o ∈ readNode t n, o ≠ .crash) ∧ (∀ o ∈ readKept t nodes ix, o ≠ .crash) ∧
+    (∀ s, origSlice t n.bb n.eb = some s → ∃ a b, a ≤ b ∧ b ≤ t.orig.length ∧ s = (t.orig.drop a).take (b - a) ∧
+      isBoundary t.orig a = true ∧ isBoundary t.orig b = true) ∧
+    (∀ c, origCharIdx t n.bc = some c → c ∈ t.ob2c ∧ c ≠ usizeMax ∧ t.state ≠ 0) ∧
+    (nodes.length ≤ ix → readKept t nodes ix = [.exc "PanicException", .exc "PanicException", .exc "PanicException"]) := by
+  have hobs : ∀ {α : Type} (f : α → String) (x : Option α), obsOf f x ≠ .crash := by
+    intro α f x; cases x <;> simp [obsOf]
+  have hrn : ∀ n, ∀ o ∈ readNode t n, o ≠ .crash := by
+    intro n o ho
+    simp only [readNode, List.mem_cons, List.mem_nil_iff, or_false] at ho
+    rcases ho with rfl | rfl | rfl <;> exact hobs _ _
+  refine ⟨hrn n, ?_, ?_, ?_, ?_⟩
+  · intro o ho
+    unfold readKept at ho
+    split at ho
+    · simp only [List.mem_cons, List.mem_nil_iff, or_false] at ho
+      rcases ho with rfl | rfl | rfl <;> simp
+    · exact hrn _ o ho
+  · intro s hs
+    unfold origSlice at hs
+    split at hs
+    · cases hs
+    · split at hs
+      · cases hs
+      · split at hs
+        · rename_i a b _ _
+          split at hs
+          · rename_i hc
+            cases hs
+            exact ⟨a, b, hc.1, hc.2.1, rfl, hc.2.2.1, hc.2.2.2⟩
+          · cases hs
+        · cases hs
+  · intro c hc
+    unfold origCharIdx origByteIdx at hc
+    split at hc
+    · cases hc
+    · rename_i b hb
+      split at hc
+      · cases hc
+      · rename_i r hr
+        split at hc
+        · cases hc
+        · rename_i hne
+          cases hc
+          refine ⟨List.mem_of_getElem? hr, hne, ?_⟩
+          intro h0
+          simp [h0] at hb
+  · intro hlen
+    unfold readKept
+    rw [List.getElem?_eq_none hlen]
+
+/-- non-vacuity (sessions): the tables of `あい` (6 bytes, 2 characters).  A node made for it reads `0:1:あ`; a node made for
+a longer text (characters 2..3, bytes 6..9) raises on every accessor; a node that ends inside `い` (byte 4) raises on
+`raw_surface` only. -/
+example :
+    let t : PySession.Tabs := ⟨2, [0xe3, 0x81, 0x82, 0xe3, 0x81, 0x84], [0xe3, 0x81, 0x82, 0xe3, 0x81, 0x84],
+      [0, 1, 2, 3, 4, 5, 6], [0, 3, 6], [0, PySession.usizeMax, PySession.usizeMax, 1, PySession.usizeMax, PySession.usizeMax, 2]⟩
+    PySession.readNode t ⟨0, 1, 0, 3⟩ = [.val "0", .val "1", .val "e38182"] ∧
+    PySession.readNode t ⟨2, 3, 6, 9⟩ = [.val "2", .exc "PanicException", .exc "PanicException"] ∧
+    PySession.readNode t ⟨0, 1, 0, 4⟩ = [.val "0", .val "1", .exc "PanicException"] := by decide
 
 end C19
